@@ -138,7 +138,7 @@ theorem semD_input {g : Gate} (hsh : shapedB N g = true) {M : Matrix (St N) (St 
       have hnm : (toRoute cx g).name.isCtl = true := by
         rw [show (toRoute cx g).name = encName cx g.name from rfl, isCtl_encName]; simpa using hc
       exact semD_handled N ρ cx (toRoute cx g) hH hna
-        (by simp [toRoute, hC, Route.nCtl, isCtl_encName, hc] ; rcases hc with h | h <;> simp [h])
+        (by show g.controls.length = Route.nCtl (toRoute cx g).name; rw [Route.nCtl, if_pos hnm, hC]; rfl)
         (a := c) (b := t) (by simp [Route.Gate.qubits, toRoute, hC, hT]) hct hc' ht g hdec
         (by simp [Gate.qubits, hC, hT])
     · obtain ⟨t0, t1, hC, hT, h01, h0, h1⟩ := shaped_swp hsh hh hc
@@ -147,7 +147,7 @@ theorem semD_input {g : Gate} (hsh : shapedB N g = true) {M : Matrix (St N) (St 
         simp only [Bool.or_eq_false_iff, beq_eq_false_iff_ne]
         exact ⟨fun h => hc (Or.inl h), fun h => hc (Or.inr h)⟩
       exact semD_handled N ρ cx (toRoute cx g) hH hna
-        (by simp [toRoute, hC, Route.nCtl]; exact hnc)
+        (by show g.controls.length = Route.nCtl (toRoute cx g).name; rw [Route.nCtl, hnc, hC]; rfl)
         (a := t0) (b := t1) (by simp [Route.Gate.qubits, toRoute, hC, hT]) h01 h0 h1 g hdec
         (by simp [Gate.qubits, hC, hT])
   · have hnh : ¬ Route.Handled (toRoute cx g) := fun hc => hh ((handled_toRoute _ g).mp hc)
@@ -166,7 +166,7 @@ theorem semD_routed (setup : Route.Setup) (hs : setup = .linear ∨ setup = .cir
   have hswap : ∀ i j, i < N → j < N → i ≠ j →
       semD N ρ (ofRoute cx (Route.swapG i j)) = some (interpT N ρ cx (Route.swapG i j)) := by
     intro i j hi hj hij
-    exact semD_handled N ρ cx (Route.swapG i j) (Or.inr rfl) (by decide) rfl (a := i) (b := j) rfl hij hi hj _ rfl rfl
+    exact semD_handled N ρ cx (Route.swapG i j) (Or.inr rfl) (by simp [Route.swapG]) rfl (a := i) (b := j) rfl hij hi hj _ rfl rfl
   by_cases hn : g.name = .CNOT ∨ g.name = .CSIGN
   · obtain ⟨c, t, hC, hT, hct, hc, ht⟩ := shaped_ctl hsh hn
     have hnm : (toRoute cx g).name.isCtl = true := by
@@ -178,7 +178,8 @@ theorem semD_routed (setup : Route.Setup) (hs : setup = .linear ∨ setup = .cir
     rw [h2.out_eq]
     intro r hm
     rcases mem_routed hm with rfl | ⟨p, hp, rfl⟩
-    · exact semD_handled N ρ cx _ (Or.inl hnm) hna (by simp [Route.nCtl, hnm])
+    · exact semD_handled N ρ cx ⟨(toRoute cx g).name, [Route.track S c], [Route.track S t], 0, 0⟩
+        (Or.inl hnm) hna (by show [Route.track S c].length = Route.nCtl (toRoute cx g).name; rw [Route.nCtl, if_pos hnm]; rfl)
         (a := Route.track S c) (b := Route.track S t) rfl (fun h => hct (Route.track_inj h))
         (Route.track_lt hS hc) (Route.track_lt hS ht) _ rfl rfl
     · exact hswap p.1 p.2 (h2.swaps_ok p hp).1 (h2.swaps_ok p hp).2.1 (h2.swaps_ok p hp).2.2.1
@@ -198,8 +199,9 @@ theorem semD_routed (setup : Route.Setup) (hs : setup = .linear ∨ setup = .cir
     rw [h2.out_eq]
     intro r hm
     rcases mem_routed hm with rfl | ⟨p', hp, rfl⟩
-    · exact semD_handled N ρ cx _ (Or.inr hnm) hna
-        (by simp [Route.nCtl, Route.isCtl_false_of_isSwp hnm])
+    · exact semD_handled N ρ cx ⟨(toRoute cx g).name, [], [p, q], (toRoute cx g).arg, 0⟩ (Or.inr hnm) hna
+        (by show ([] : List ℕ).length = Route.nCtl (toRoute cx g).name
+            rw [Route.nCtl, Route.isCtl_false_of_isSwp hnm]; rfl)
         (a := p) (b := q) rfl hpq.1 hpq.2.1 hpq.2.2 _ rfl rfl
     · exact hswap p'.1 p'.2 (h2.swaps_ok p' hp).1 (h2.swaps_ok p' hp).2.1 (h2.swaps_ok p' hp).2.2.1
 
